@@ -258,7 +258,7 @@ def items_for(prop, tier):
                 cfgs.append((bs, rate, dims, dict(part=part, ranges=('sym', 'sym', 'sym'), mode='valid', may_refuse=True)))
         for bs, rate, dims, o in cfgs:
             desc = 'crop|bs=%s|rate=%s|dims=%s|%s' % ('x'.join(map(str, bs)), rate, 'x'.join(map(str, dims)), ','.join('%s=%s' % kv for kv in sorted(o.items())))
-            it = Item(desc, (lambda bs=bs, rate=rate, dims=dims, o=o: crop_item(bs, rate, dims, o)), timeout_s=250 if quick else 1500)
+            it = Item(desc, (lambda bs=bs, rate=rate, dims=dims, o=o: crop_item(bs, rate, dims, o)), timeout_s=250 if quick else 600)
             it.meta = dict(kind='crop', bs=list(bs), rate=rate, dims=list(dims), opts=dict(o))
             items.append(it)
     else:
@@ -278,7 +278,7 @@ def items_for(prop, tier):
         cfgs.append(((5, 5, 8), dict(bs=(64, 64, 4), rate=2)))
         for dims, o in cfgs:
             desc = 'reblock|dims=%s|%s' % ('x'.join(map(str, dims)), ','.join('%s=%s' % kv for kv in sorted(o.items())))
-            it = Item(desc, (lambda dims=dims, o=o: reblock_item(dims, o)), timeout_s=300 if quick else 1500)
+            it = Item(desc, (lambda dims=dims, o=o: reblock_item(dims, o)), timeout_s=300 if quick else 700)
             it.meta = dict(kind='reblock', dims=list(dims), opts=dict(o))
             items.append(it)
     return items
